@@ -1,5 +1,6 @@
 (* C07 judged on implementation traces: the mirror after every step, panics, what gets built, freshness. *)
 From BEI Require Export Check.App.
+From BEI Require Import Spec.ReadSpec.
 Open Scope Z_scope.
 
 Definition got_of (c e : Z) (o : out) : bool :=
@@ -48,9 +49,30 @@ Definition judge_step (sc : scenario) (st : step) (before o : out) : list (Z * b
        (s_menu sc))
    else []).
 
+(* "every entity has its own instance, built for that entity": each probed binding of an exclusive instance reads the
+   device its own entity's configuration names (the probe is the binding's first modifier; non-consuming profile) *)
+Definition judge_own_device (sc : scenario) (st : step) (before o : out) : list (Z * bool) :=
+  match st with
+  | SFrame f =>
+      flat_map (fun x =>
+        let '(c, e, spec) := x in
+        if negb (ctx_shared c) && got_of c e before then
+          flat_map (fun ab => flat_map (fun ib =>
+            match ib_mods ib with
+            | (id, MScript []) :: _ =>
+                match find_mod id (x_log o) with
+                | Some (vin, _, _) => [(5, veqb vin (spec_read (f_raw f) (ui_any (f_raw f)) (i_pad spec) (ib_input ib)))]
+                | None => []
+                end
+            | _ => []
+            end) (ab_inputs ab)) (merged_actions spec)
+        else []) (s_cfg sc)
+  | SOp _ => [(4, ops_leave_others before o)]       (* and instances an operation does not touch go on undisturbed *)
+  end.
+
 Fixpoint judge_steps (sc : scenario) (before : out) (steps : list step) (outs : list out) : list (Z * bool) :=
   match steps, outs with
-  | st :: steps', o :: outs' => judge_step sc st before o ++ judge_steps sc o steps' outs'
+  | st :: steps', o :: outs' => judge_step sc st before o ++ judge_own_device sc st before o ++ judge_steps sc o steps' outs'
   | [], [] => []
   | _, _ => [(9, false)]
   end.
